@@ -18,7 +18,12 @@ HERE = os.path.dirname(os.path.dirname(os.path.abspath(__file__)))
 sys.path.insert(0, HERE)
 from mc import kernel  # noqa: E402
 
-FILES = sorted(glob.glob(os.path.join(HERE, 'replays', '*', '*.json')) + glob.glob(os.path.join(HERE, 'seeded', '*', 'replay*.json')))
+# tests/regress/*.json: one recorded counterexample per class of defect that was found by a check and then FIXED in /repo (KNOWN_FINDINGS.txt `fixed:` lines):
+# they pass on the repaired tree and fail again if a defect returns
+FILES = sorted(glob.glob(os.path.join(HERE, 'replays', '*', '*.json')) + glob.glob(os.path.join(HERE, 'seeded', '*', 'replay*.json')) +
+               glob.glob(os.path.join(HERE, 'tests', 'regress', '*.json')))
+if os.environ.get('VERIF_REGRESS_ONLY'):
+    FILES = [f for f in FILES if os.sep + 'regress' + os.sep in f]
 
 
 @pytest.mark.parametrize('path', FILES or [None])
